@@ -17,6 +17,12 @@ def pel(params, batch, rng):
   return (batch['x'] @ params['w'] + params['b'] - batch['y']) ** 2
 
 
+def pel_keyed(params, batch, rng):
+  # a loss that USES its per-step key (input dropout): each local step must get its own single-use key
+  keep = jax.random.bernoulli(rng, 0.7, batch['x'].shape)
+  return ((batch['x'] * keep) @ params['w'] + params['b'] - batch['y']) ** 2
+
+
 def make_opt(name):
   return {'sgd': lambda: optimizers.sgd(0.1), 'momentum': lambda: optimizers.sgd(0.1, momentum=0.9),
           'adam': lambda: optimizers.adam(0.05)}[name]()
@@ -57,7 +63,7 @@ def reference_round(grad_fn, copt, sopt, hp, state, clients):
 def check_round(inp):
   sizes_rounds, bs, copt_n, sopt_n, seed = inp['rounds'], inp['batch_size'], inp['copt'], inp['sopt'], inp['seed']
   rng = np.random.RandomState(seed)
-  grad_fn = models.grad(pel)
+  grad_fn = models.grad(pel_keyed if inp.get('keyed') else pel)
   copt, sopt = make_opt(copt_n), make_opt(sopt_n)
   hp = cds.ShuffleRepeatBatchHParams(batch_size=bs, num_epochs=inp.get('epochs', 1), seed=3,
                                      drop_remainder=inp.get('drop', False))
@@ -118,6 +124,7 @@ def sweep_round(tier, seed):
       yield dict(rounds=[[3, 0, 5], [0, 0], [4, 1]], batch_size=2, copt=copt, sopt=sopt, seed=seed)
       yield dict(rounds=[[1], [], [2, 7]], batch_size=3, copt=copt, sopt=sopt, seed=seed + 1, epochs=2)
   yield dict(rounds=[[5, 4]], batch_size=4, copt='sgd', sopt='sgd', seed=seed, drop=True)
+  yield dict(rounds=[[5, 0, 3], [4]], batch_size=2, copt='sgd', sopt='sgd', seed=seed, epochs=2, keyed=True)
   yield dict(rounds=[[5, 2, 7]], batch_size=3, copt='sgd', sopt='sgd', seed=seed, epochs=3)
   yield dict(rounds=[[5, 2, 7]], batch_size=3, copt='momentum', sopt='sgd', seed=seed, epochs=2, drop=True)
   # all three backends; full batches only (pmap stacks the batches of a block), clients listed small to large and shuffled
